@@ -84,6 +84,15 @@ Fixpoint srun_ok (fin : T -> bool) (cl : T -> T) (n : nat) (st : sstate) (evs : 
   | Some x :: t => fin (snd (spush cl st x)) && srun_ok fin cl n (spush cl st x) t
   end.
 
+(* what the verdict of the correspondence sees of one channel: every pushed sample with the sum
+   stored after it, resets ([toD] = exact dyadic reading) *)
+Fixpoint sobs (toD : T -> dy) (cl : T -> T) (n : nat) (st : sstate) (evs : list (option T)) : list ev :=
+  match evs with
+  | [] => []
+  | None :: t => EReset :: sobs toD cl n (sreset n) t
+  | Some x :: t => EPush (toD x) (toD (snd (spush cl st x))) :: sobs toD cl n (spush cl st x) t
+  end.
+
 Definition proj (c : nat) (st : rms K) : sstate :=
   (map (fun f => nth c f (zero K)) (fq (window K st)), nth c (square_sum K st) (zero K)).
 
